@@ -174,6 +174,10 @@ structure Facts02 where
       every falsy value (good): `''`, `0`, `0.0`, `False` have to be members of the enumeration like any other value. (The shared
       `validateNative` is only ever applied to non-null values, i.e. it models the `is None` test.) -/
   valuesNullTestIsNone : Bool
+  /-- `get_cls_attrs` caches (with the per-protocol attributes `pa=` merged in) belong to one protocol instance (good): what a
+      configuration accepts does not depend on which other protocol instances exist in the process or used a type first. The
+      model's verdict is a function of (cfg, registry, type, document) only; this fact is what ties that to the code. -/
+  attrCachesPerInstance : Bool
   deriving Repr
 
 /-- the switches the round trip of conformant values depends on -/
